@@ -27,7 +27,8 @@ CONSTANTS Slots,        \* ingress slots; creation order is the slot number
           Svcs, EpsIds, \* services and the endpoint sets they can have
           Secrets, SecVals,
           MaxOps,       \* events per batch
-          MaxBatches
+          MaxBatches,
+          FaultPoints   \* failure points a reconciliation can be hit by (C12); {} = fault-free histories
 
 VARIABLES ing,    \* slot -> template id | "none"
           eps,    \* service -> endpoint set id
@@ -99,9 +100,11 @@ SetSec(c, v) ==
     /\ batch' = Append(batch, Ev("sec", c, v))
     /\ UNCHANGED <<ing, eps, hist>>
 
-Reconcile ==
+(* the queue hands the batch to a reconciliation; f names the failure point hit by it ("none": fault free).
+   After a failure the controller retries by itself; the retry is fault free. *)
+Reconcile(f) ==
     /\ batch # <<>>
-    /\ hist' = Append(hist, batch)
+    /\ hist' = Append(hist, [ops |-> batch, fault |-> f])
     /\ batch' = <<>>
     /\ UNCHANGED <<ing, eps, sec>>
 
@@ -117,7 +120,7 @@ Next ==
           \/ \E i \in Slots : DelIng(i)
           \/ \E s \in Svcs, e \in EpsIds : SetEps(s, e)
           \/ \E c \in Secrets, v \in SecVals : SetSec(c, v)
-    \/ /\ Len(hist) < MaxBatches /\ Reconcile
+    \/ /\ Len(hist) < MaxBatches /\ \E f \in FaultPoints \cup {"none"} : Reconcile(f)
 
 Spec == Init /\ [][Next]_vars
 
